@@ -214,6 +214,32 @@ def decode(img, want=True):
     mt_len, n_maps = struct.unpack_from('<LL', lv, 264)
     int_len, int_loc = struct.unpack_from('<LL', lv, 432)
     u.lv_crc_len = None
+    # --- partition maps (ECMA-167 3/10.7): a partition reference number is an index into this table; the Type 1 map
+    # names the partition by (volume sequence number, partition number), which must be the number of a Partition Descriptor
+    maps = []
+    off = 440
+    for i in range(n_maps):
+        if off + 2 > len(lv):
+            u.complain('LVD: partition map %d outside the descriptor' % i)
+            break
+        mtype, mlen2 = lv[off], lv[off + 1]
+        if mlen2 == 0:
+            u.complain('LVD: partition map %d has length 0' % i)
+            break
+        if mtype == 1 and mlen2 == 6:
+            vsn, pnum = struct.unpack_from('<HH', lv, off + 2)
+            maps.append((vsn, pnum))
+            if pnum != part_num:
+                u.complain('LVD: partition map %d names partition number %d (volume sequence number %d), but the partition descriptor has number %d' % (i, pnum, vsn, part_num))
+            if vsn != 1 and vsn != struct.unpack_from('<H', mainseq[1][0][1], 56)[0]:
+                u.complain('LVD: partition map %d names volume sequence number %d' % (i, vsn))
+        else:
+            maps.append(None)
+        off += mlen2
+    if n_maps and off - 440 != mt_len:
+        u.complain('LVD: map table length %d, maps occupy %d bytes' % (mt_len, off - 440))
+    if fsd_part >= max(n_maps, 1):
+        u.complain('LVD: file set descriptor in partition reference %d, only %d partition map(s)' % (fsd_part, n_maps))
     # --- integrity sequence
     if int_len:
         r = check_tag(u, img, int_loc, 9, int_loc, 'LVID')
